@@ -8,16 +8,21 @@ ID = "C53"
 LEVEL = "fault_enumeration"
 ENGINE = "mc.crashfs"
 RULE = ("all histories of <= N operations over {write 1 byte, write 3 bytes, write a 2-byte UTF-8 text character, write 4 bytes, "
-        "reopen} for rotateLength in {1,3,4} x maxRotatedFiles in {None,1,2}; after every operation the rotated files (oldest "
+        "reopen} (second family: {write 1, 3, 4 bytes, external truncate-in-place + reopen, external move-away + reopen}, after which "
+        "the reference stream is what the rotated files hold) for rotateLength in {1,3,4} x maxRotatedFiles in {None,1,2}; after every operation the rotated files (oldest "
         "first) + current file are compared with the stream written; every history whose last write rotates is re-run with a "
         "crash before each mutating system call of that write, then the log is reopened, two more writes are made and the files "
         "are checked again. Chunks carry distinct bytes so positions are unambiguous. non-trivial = distinct (config, history, "
         "crash plan) with a crash strictly inside rotate(), plus distinct crash-free histories with >= 1 rotation")
-BOUNDS = {"quick": "N = 5", "thorough": "N = 6"}
+BOUNDS = {"quick": "N = 5 (both families)", "thorough": "N = 6 (both families)"}
 ASSUMPTIONS = ["process-crash model (completed system calls persist; the log file is opened unbuffered by LogFile itself)"]
-MIN = {"quick": {"evaluations": 140000, "nontrivial": 65000, "outcomes": 3}}
+MIN = {"quick": {"evaluations": 275000, "nontrivial": 130000, "outcomes": 3}}
 
 KINDS = ["b1", "b3", "t1", "b4", "reopen"]
+# second family: an external tool takes the current file away (truncates it in place / renames it out of the
+# directory) and the application calls reopen(), the documented use of reopen()
+KINDS_EXT = ["b1", "b3", "b4", "xtr", "xmv"]
+NOWRITE = ("reopen", "xtr", "xmv")
 PRE = [0]       # rotated files that existed before the LogFile was created (current execution)
 NEWROT = [0]    # rotations performed by the LogFile in the current execution
 CONFIGS = [(rl, mx) for rl in (1, 3, 4) for mx in (None, 1, 2)]
@@ -122,15 +127,31 @@ def run_history(d, cfg, hist, plan=None, tail=(), pre=0):
     def count_rot():
         return len([n for n in os.listdir(d) if n.startswith("log.")])
 
+    def external(kind):
+        """what happens outside the process before reopen(); returns nothing, adjusts the reference stream"""
+        if kind == "reopen":
+            return
+        path = os.path.join(d, "log")
+        if kind == "xtr":
+            with real_open(path, "r+b") as f:
+                f.truncate(0)
+        else:
+            os.rename(path, d + "-moved")
+            os.remove(d + "-moved")
+        # the bytes of the current file are gone: the reference stream is what the rotated files hold
+        rot, _ = read_state(d)
+        written[:] = [rot[n] for n in sorted(rot, reverse=True)]
+
     maxseen = 0
     for i, kind in enumerate(hist):
         last = i == len(hist) - 1
-        c = None if kind == "reopen" else chunk(kind, i)
+        c = None if kind in NOWRITE else chunk(kind, i)
         if last and plan is not None:
             fs = CrashFS(plan, root=d)
             with fs:
                 try:
                     if c is None:
+                        external(kind)
                         lf.reopen()
                     else:
                         lf.write(c)
@@ -166,6 +187,7 @@ def run_history(d, cfg, hist, plan=None, tail=(), pre=0):
         before = sorted(n for n in os.listdir(d) if n.startswith("log."))
         cur_before = os.path.getsize(os.path.join(d, "log"))
         if c is None:
+            external(kind)
             lf.reopen()
         else:
             lf.write(c)
@@ -195,6 +217,14 @@ def histories(n):
             yield h
 
 
+def histories_ext(n):
+    for L in range(2, n + 1):
+        for h in itertools.product(KINDS_EXT, repeat=L):
+            if not any(k in ("xtr", "xmv") for k in h) or h[-1] in ("xtr", "xmv"):
+                continue
+            yield h
+
+
 PRE_CONFIGS = [((1, None), 10), ((3, None), 11), ((1, 2), 3), ((3, 1), 2), ((1, 12), 12)]
 
 
@@ -204,6 +234,10 @@ def shards(tier, seed):
     out = []
     for cfg in CONFIGS:
         for part in split(hs, 12 if tier == "quick" else 16):
+            out.append((cfg, part, 0))
+    hs3 = list(histories_ext(5 if tier == "quick" else 6))
+    for cfg in CONFIGS:
+        for part in split(hs3, 4 if tier == "quick" else 12):
             out.append((cfg, part, 0))
     hs2 = list(histories(3 if tier == "quick" else 4))
     for cfg, pre in PRE_CONFIGS:
